@@ -124,7 +124,7 @@ EXPORT errno_t _strspn_s_chk(const char *dest, rsize_t dmax, const char *src,
         return RCNEGATE(ESZEROL);
     }
 
-    while (*dest && dmax) {
+    while (dmax && *dest) {
         /*
          * Scan the entire src string for each dest character, counting
          * inclusions.
@@ -132,7 +132,7 @@ EXPORT errno_t _strspn_s_chk(const char *dest, rsize_t dmax, const char *src,
         match_found = false;
         smax = slen;
         scan2 = src;
-        while (*scan2 && smax) {
+        while (smax && *scan2) {
 
             if (*dest == *scan2) {
                 match_found = true;
